@@ -242,7 +242,7 @@ func TestExhaustiveRuleTable(t *testing.T) {
 var recExtra = ev.New("TestPropExtraKeysDoNotChangeKind", "random rows of the same table with 0-10 extra keys (names outside every kind-determining key, arbitrary nested values incl. anchors/aliases) in random key order and style: decision unchanged; non-trivial = >= 3 extra keys and keys from >= 2 families or a contradicting type; distinct by document text")
 
 func TestPropExtraKeysDoNotChangeKind(t *testing.T) {
-	ev.Check(t, 3000, 30000, func(t *rapid.T) {
+	ev.Check(t, 3000, 200000, func(t *rapid.T) {
 		mask := rapid.IntRange(0, 1<<len(kindKeys)-1).Draw(t, "mask")
 		if rapid.Bool().Draw(t, "sparse") {
 			mask &= rapid.IntRange(0, 1<<len(kindKeys)-1).Draw(t, "mask2")
@@ -332,7 +332,7 @@ var recScalar = ev.New("TestPropScalarSteps", "scalar step strings: the five rec
 
 func TestPropScalarSteps(t *testing.T) {
 	known := map[string]string{"wait": doc.KWait, "waiter": doc.KWait, "block": doc.KInput, "input": doc.KInput, "manual": doc.KInput}
-	ev.Check(t, 3000, 30000, func(t *rapid.T) {
+	ev.Check(t, 3000, 200000, func(t *rapid.T) {
 		s := rapid.OneOf(
 			rapid.SampledFrom([]string{"wait", "waiter", "block", "input", "manual"}),
 			rapid.SampledFrom([]string{"Wait", "wait ", " wait", "waiters", "blocks", "inputs", "manual\n", "WAIT", "trigger", "command", "group", "wai", "", "~", "null", "true", "1"}),
